@@ -49,6 +49,11 @@ FIXED_EXPRS = [
     "//a[@k][last()]", "a[@k][position()<last()]", "*[@k or @j][2]", "//*[@k][not(position()=1)]",
     "descendant::a/b", "descendant::b/a[@k]", "//text()[contains(@k,'')]", "//a[@k<2]", "//a[@k=1]", "//*[@k=(1=1)]",
     "preceding::*[1]", "following::*[2]", "ancestor-or-self::*[last()]", "..", "/.",
+    # the root node as context node of every axis, followed by a step (the root node itself is never in a result)
+    "/ancestor-or-self::node()/child::*", "/ancestor-or-self::node()/*/*", "../ancestor-or-self::node()/descendant::b",
+    "/ancestor::node()/*", "/parent::node()/*", "/self::node()/*", "/descendant-or-self::node()/a", "/following::*",
+    "/preceding::*", "/following-sibling::node()", "/preceding-sibling::node()/*", "/child::*/ancestor-or-self::node()/*",
+    "ancestor-or-self::node()/*[1]", "ancestor::node()[last()]/*",
 ]
 
 
@@ -460,6 +465,7 @@ def run(ctx, args):
     css(ctx, keep[:12] if quick else keep[:60])
     css_model(ctx)
     order_search(ctx, keep if quick else keep[:80])
+    state_search(ctx)
     for f in ctx.findings:
         if f["status"] == "fixed":
             ctx.count(1, "fixed-finding-regression-case")
@@ -474,6 +480,73 @@ def run(ctx, args):
         replay_open=replay_open,
         explanation="a difference inside in_subset (decided by the Coq definition) is a VIOLATION; outside it, it must "
                     "fall into the class of an open finding")
+
+
+# ---------------------------------------------------------------- state that survives between calls
+STATE_DOCS = [
+    '<r xmlns:p="u" xmlns:q="v"><p:a k="1"/><q:a/><a/><p:b><q:b/><p:a/></p:b><q:b k="2"/></r>',
+    '<r xmlns="u" xmlns:q="v"><a/><q:a><a/></q:a><n xmlns=""><a/></n></r>',
+]
+STATE_EXPRS = ["p:*", "//p:*", "descendant::p:*[1]", "p:a", "//p:a", "//p:b/p:*", "//q:* | //p:a", "*", "//*[@k]", "a", "//a",
+               "//p:*[not(position()=1)]", "descendant::p:b/*"]
+STATE_MAPS = [{"p": "u"}, {"p": "v"}, {"p": "u", "q": "v"}, {"p": "v", "q": "u"}, {"p": "u", "": "v"}, {"p": "v", "": "u"},
+              {"p": "u"}, None, {}, {"p": "x"}]
+
+
+def state_search(ctx):
+    """parse() is cached: nothing an evaluation learns may stick to the parsed expression.  The same expression strings are
+    evaluated again and again in this process with different `namespaces` (the same prefix bound to another URI, a
+    prefix added or dropped, another default namespace), from different context nodes of different documents,
+    interleaved; and again after the tree was edited.  Every single result is compared with lxml's for that call."""
+    from impl import new_tag_node
+    rng = ctx.rng
+    docs = [impl.Document(d) for d in STATE_DOCS]
+    n = 0
+
+    def one(d, node, e, um, when):
+        nonlocal n
+        tree = xq.Tree(d.root)
+        eff = xq.effective_nsmap(node, um)
+        nsd = {k: v for k, v in eff if k and v}
+        dflt = dict(eff).get("", "")
+        le = e
+        if dflt:                                        # deviation 1: an un-prefixed name addresses the default namespace
+            le = re.sub(r"(^|::|/|\| )([abn])\b(?![(:])", r"\1D0:\2", e)
+            nsd["D0"] = dflt
+        lx = lxml_eval(tree, node, le, nsd)
+        if lx is None:
+            return
+        real = xq.real_outcome(lambda: node.xpath(e, namespaces=um), tree)
+        n += 1
+        if real[0] != "ok" or sorted(real[1]) != [tuple(p) for p in lx] or len(set(real[1])) != len(real[1]):
+            ctx.fail("a repeated evaluation of the same expression string differs from the XPath 1.0 engine for this call's "
+                     "namespaces / tree", {"doc": safe_str(d.root), "expr": e, "namespaces": um, "ctx": list(tree.pos_of(node)),
+                                           "when": when, "real": real, "expected": lx})
+
+    # fixed order first (the smallest failing history), then shuffled
+    plan = [(di, e, mi) for e in STATE_EXPRS for mi in range(len(STATE_MAPS)) for di in range(len(docs))]
+    extra = list(plan)
+    rng.shuffle(extra)
+    for di, e, mi in plan + extra[:300]:
+        d = docs[di]
+        node = d.root if (mi + di) % 3 else d.root[0]
+        if not isinstance(node, TagNode):
+            node = d.root
+        one(d, node, e, STATE_MAPS[mi], "repeated")
+    # the tree changes between two evaluations of the same string
+    for d in docs:
+        for e in STATE_EXPRS:
+            um = {"p": "u", "q": "v"}
+            one(d, d.root, e, um, "before-edit")
+        with altered_default_filters():
+            d.root.append_children(new_tag_node("a", namespace="u"), new_tag_node("b", namespace="v"))
+            first = d.root[0]
+            if isinstance(first, TagNode):
+                first.detach()
+        for e in STATE_EXPRS:
+            um = {"p": "u", "q": "v"}
+            one(d, d.root, e, um, "after-edit")
+    ctx.count(n, "state:repeated-evaluations")
 
 
 # ---------------------------------------------------------------- in_document_order, directly on the implementation
